@@ -10,7 +10,8 @@ from typing import Any, Dict, List, Optional, Set, Tuple
 
 from ..dofsym import (ENT, KINDS, EmptyBlock, Gather, NumBlock, run_dofs)
 from ..elements import load_elements, load_refdoms
-from ..interp import ModRef
+from ..interp import (Arr, Interp, ModRef, Obj, PyFunc, Raised,
+                      Unsupported)
 from ..model import AnalysisError, FuncInfo, Model, src, walk_no_nested
 from ..poly import Poly
 
@@ -574,6 +575,133 @@ def _r5(model, rep):
                             f"audited")
 
 
+class _IntVec:
+    """1-D integer vector with the few numpy operations _deduce_bfun uses:
+    ``v == j`` (mask), ``v.copy()``, ``v[mask] = seq`` and ``v[i]``."""
+
+    def __init__(self, vals):
+        self.vals = list(vals)
+
+    def skv_compare(self, op, other):
+        if isinstance(op, ast.Eq) and isinstance(other, (int, Fraction)):
+            return _IntVec([bool(v == other) for v in self.vals])
+        raise Unsupported("vector comparison")
+
+    def skv_getattr(self, name):
+        if name == "copy":
+            return PyFunc(lambda a, k, n: _IntVec(self.vals))
+        if name == "shape":
+            return (len(self.vals),)
+        raise Unsupported(f"vector attribute {name}")
+
+    def skv_getitem(self, ix):
+        if isinstance(ix, Fraction):
+            ix = int(ix)
+        if isinstance(ix, int):
+            return self.vals[ix]
+        if isinstance(ix, _IntVec):
+            return _IntVec([v for v, m in zip(self.vals, ix.vals) if m])
+        raise Unsupported("vector index")
+
+    def skv_setitem(self, ix, v):
+        if isinstance(ix, _IntVec) and all(isinstance(m, bool)
+                                           for m in ix.vals):
+            src_ = v.vals if isinstance(v, _IntVec) else list(v)
+            pos = [i for i, m in enumerate(ix.vals) if m]
+            if len(pos) != len(src_):
+                raise Raised("boolean index assignment of wrong length")
+            for i, x in zip(pos, src_):
+                self.vals[i] = x
+            return
+        raise Unsupported("vector store")
+
+    def skv_len(self):
+        return len(self.vals)
+
+
+def _r6(model, rep, dofs_order):
+    """The composite element's local index -> (component, local index of
+    the component) map, interpreted for concrete count vectors, against the
+    row order of Dofs.element_dofs."""
+    R6 = "C04-R6"
+    cc = model.cls("skfem.element.element_composite", "ElementComposite")
+    ec = model.cls("skfem.element.element", "Element")
+    fn = cc.find_method("_deduce_bfun")
+    if fn is None:
+        raise AnalysisError("ElementComposite._deduce_bfun not found")
+
+    def hook(interp, name, args, kwargs, node):
+        if name == "numpy.array" and args and isinstance(args[0], list) \
+                and all(isinstance(x, int) for x in args[0]):
+            return _IntVec(args[0])
+        if name == "numpy.array" and args and isinstance(args[0], list) \
+                and args[0] and all(isinstance(x, _IntVec) for x in args[0]):
+            return Arr([list(x.vals) for x in args[0]])
+        if name == "numpy.sum" and args and isinstance(args[0], _IntVec) \
+                and not kwargs and len(args) == 1:
+            return sum(int(v) for v in args[0].vals)
+        if name == "numpy.arange" and len(args) == 1 and \
+                isinstance(args[0], int):
+            return _IntVec(range(args[0]))
+        return NotImplemented
+
+    ents = {"tet-like": {"nodal": 4, "edge": 6, "facet": 4, "interior": 1},
+            "hex-like": {"nodal": 8, "edge": 12, "facet": 6, "interior": 1}}
+    attr = {"nodal": "nnodes", "edge": "nedges", "facet": "nfacets"}
+    configs = [((1, 0, 2, 1), (0, 1, 1, 2)),
+               ((0, 2, 0, 0), (0, 0, 1, 0)),
+               ((1, 1, 0, 0), (1, 0, 1, 1), (0, 1, 2, 0)),
+               ((1, 0, 0, 0), (1, 0, 0, 0)),
+               ((0, 0, 0, 3), (2, 0, 0, 0))]
+    for rname, nent in ents.items():
+        rd = Obj(None, {attr[k]: nent[k] for k in attr})
+        for cfg in configs:
+            comps = [dict(zip(KINDS, c)) for c in cfg]
+            elems = tuple(Obj(ec, {**{k + "_dofs": c[k] for k in KINDS},
+                                   "refdom": rd}) for c in comps)
+            comp = Obj(cc, {"elems": elems})
+            # expected: rows of element_dofs in the order Dofs stacks them;
+            # each component's own local index runs through the same order
+            expected = []
+            for kind in dofs_order:
+                for e in range(nent[kind]):
+                    for j, c in enumerate(comps):
+                        off = sum(c[k2] * nent[k2] for k2 in
+                                  dofs_order[:dofs_order.index(kind)])
+                        for k in range(c[kind]):
+                            expected.append((j, off + e * c[kind] + k))
+            cons = (f"_deduce_bfun[{rname}|" +
+                    "*".join("".join(map(str, c)) for c in cfg) + "]")
+            bad = None
+            try:
+                for i, exp in enumerate(expected):
+                    it = Interp(model, call_hook=hook)
+                    got = it.call(fn, [i], {}, self_obj=comp)
+                    got = tuple(int(x) for x in got)
+                    if got != exp:
+                        bad = (i, got, exp)
+                        break
+            except (Unsupported, Raised) as e:
+                raise AnalysisError(f"ElementComposite._deduce_bfun outside "
+                                    f"grammar: {e}")
+            if bad is None:
+                rep.ok(R6, cons, f"{len(expected)} local indices map to the "
+                       f"component function attached to the same entity as "
+                       f"the row of element_dofs",
+                       sample=(cfg is configs[0] and rname == "tet-like"))
+            else:
+                i, got, exp = bad
+                # which entity does row i / function got belong to?
+                rep.fail(R6, fn.path, "ElementComposite._deduce_bfun", cons,
+                         f"local index {i} (row {i} of element_dofs, stacked "
+                         f"{'-'.join(dofs_order)}) is served by function "
+                         f"{got[1]} of component {got[0]}; the DOF numbered "
+                         f"in that row belongs to function {exp[1]} of "
+                         f"component {exp[0]}: basis functions and DOF "
+                         f"numbers are attached to different entities",
+                         fn.lineno)
+
+
 def run(model: Model, rep, tier: str) -> None:
     rep.rule("C04-R1", "one entity-kind order per convention: local basis "
              "order and dofnames order, agreed by all readers and writers")
@@ -585,10 +713,15 @@ def run(model: Model, rep, tier: str) -> None:
              "on both sides")
     rep.rule("C04-R5", "literal doflocs / dofnames coherent with the DOF "
              "counts and the Refdom entities")
+    rep.rule("C04-R6", "composite elements: local index i is served by the "
+             "component function on the entity that row i of element_dofs "
+             "numbers")
     order = _r23(model, rep)
     _r1(model, rep, order)
     _r4(model, rep)
     _r5(model, rep)
+    _r6(model, rep, tuple(order))
+    rep.require_min("C04-R6", 10)
     rep.require_min("C04-R1", 10)
     rep.require_min("C04-R2", 40)
     rep.require_min("C04-R3", 90)
@@ -596,7 +729,24 @@ def run(model: Model, rep, tier: str) -> None:
 
 
 _D = "skfem/assembly/dofs.py"
+_EC = "skfem/element/element_composite.py"
+_EDGE_BLK = """        if counts[1] > 0:
+            tmp = sum([[j] * self.elems[j].edge_dofs
+                       for j in range(len(self.elems))], [])
+            ns += sum([tmp for j in range(int(counts[1] / len(tmp)))], [])
+"""
+_FACET_BLK = """        if counts[2] > 0:
+            tmp = sum([[j] * self.elems[j].facet_dofs
+                       for j in range(len(self.elems))], [])
+            ns += sum([tmp for j in range(int(counts[2] / len(tmp)))], [])
+"""
 MUTANTS = [
+    ("composite serves facet functions before edge functions",
+     (_EC, _EDGE_BLK + _FACET_BLK, _FACET_BLK + _EDGE_BLK), "C04-R6"),
+    ("composite component-local index sequence reversed",
+     (_EC, "            seq = np.arange(total, dtype=np.int_)\n",
+      "            seq = np.arange(total, dtype=np.int_)\n"
+      "            seq = seq[::-1]\n"), None),
     ("offset advanced by the wrong entity count",
      (_D, "            offset += element.edge_dofs * topo.nedges",
       "            offset += element.edge_dofs * topo.nfacets"), "C04-R2"),
